@@ -18,6 +18,7 @@ def run(tier, t0):
         c15.run_deep(f, rep, cfg)
         c15.run_siblings(f, rep, cfg)
         c15.run_modes(f, rep, cfg)
+        c15.run_forest(f, rep, cfg)
     stale = {}
     for s in rep.stale:
         stale.setdefault(s["key"], set()).add(s["config"])
@@ -26,6 +27,7 @@ def run(tier, t0):
     rep.floor("deep_forwarders", 5)
     rep.floor("vartime_sibling_pairs", 60)
     rep.floor("operator_and_checked_forwarders", 40)
+    rep.floor("operator_forests", 30)
     return finish(rep, tier, t0,
                   explanation="forwarder family / operand-order / projection rule over %d MIR bodies in two "
                               "feature configurations; implementations (two or more family callees, branches, "
